@@ -289,7 +289,7 @@ pub fn run(ctx: &Ctx) -> (Stats, Report) {
     st.section("linear_ops_pool_cross_product", &mut mark);
 
     // E2: random operands through proptest
-    let cases = if ctx.thorough { 8_000_000 } else { 120_000 };
+    let cases = if ctx.thorough { 8_000_000 } else { 600_000 };
     let mut edge_sets = std::collections::HashMap::new();
     for k in crate::model::text::KINDS {
         edge_sets.insert(k, pools::pool(k, seed, 0).into_iter().map(|v| v.raw).collect::<std::collections::HashSet<_>>());
@@ -495,7 +495,7 @@ pub fn run(ctx: &Ctx) -> (Stats, Report) {
     let s = pt_run(
         "C08/add_days",
         seed,
-        (if ctx.thorough { 160_000_000 } else { 1_600_000 }) / THREADS as u32,
+        (if ctx.thorough { 160_000_000 } else { 6_400_000 }) / THREADS as u32,
         THREADS,
         || (strat::raw(Kind::Ts), strat::any_f64(), any::<bool>()),
         |(x, f, sub): &(i128, f64, bool), st: &mut Stats| {
